@@ -477,6 +477,18 @@ def run(ctx):
                     ctx.violation("U8-INDEX", b.path, "%s-count" % short, why, sites=[site])
                 continue
             if not in_surface:
+                # B'. outside surface.rs the backing store of a surface / image is reached through data()/data_mut() (or the `data` field of
+                # Image / SurfaceOwned inside their own impls); whatever indexes it — element or range — must be a Shape::offset(..) term
+                if b.file.startswith("src/") and call_matches(t, r"ops::Index(Mut)?<I>( for [^>]*(<[^>]*>)?)?>::index(_mut)?$|::get(_mut)?$|::get_unchecked(_mut)?$") and len(t["args"]) == 2:
+                    re0 = expr(b, t["args"][0])
+                    own_field = re.search(r"(^|\()arg1\.data\b", re0) and re.sub(r"<.*$", "", b.impl_self or "") in ("image::Image", "surface::SurfaceOwned")
+                    if re.search(r"(Surface::data|SurfaceMut::data_mut|Image::data)\(", re0) or own_field:
+                        ie = expr(b, t["args"][1])
+                        ok = ie.startswith("Shape::offset(")
+                        ctx.instance("U8-INDEX", {"fn": b.path, "data_access_outside_surface_rs": short, "index": ie[:120], "ok": ok})
+                        if not ok:
+                            ctx.violation("U8-INDEX", b.path, "%s-index" % short, "the backing store of a surface/image is accessed at %s, which is not a Shape::offset(..) of the view: "
+                                          "cropped, strided and transposed views (shape.start != 0, strides != (width, 1)) address other cells" % ie[:160], sites=[site])
                 continue
             if up is None:
                 up = _upvars(b)
@@ -496,6 +508,18 @@ def run(ctx):
                 if space_of(e) in ("storage", "mixed") and _top_call(e) is not None:
                     ctx.violation("U8-INDEX", b.path, "offset-to-%s" % short, "a storage offset (%s) is handed to %s; offsets are only meaningful as indices of the backing slice" % (e[:160], nm), sites=[site])
         if not in_surface:
+            if b.file.startswith("src/"):
+                for bb, t in b.terms():
+                    if t["k"] == "assert" and t["msg"]["kind"] == "BoundsCheck":
+                        le = expr(b, t["msg"]["len"])
+                        if not re.search(r"(Surface::data|SurfaceMut::data_mut|Image::data)\(", le):
+                            continue
+                        ie = expr(b, t["msg"]["index"])
+                        ok = ie.startswith("Shape::offset(")
+                        ctx.instance("U8-INDEX", {"fn": b.path, "data_access_outside_surface_rs": "index", "index": ie[:120], "ok": ok})
+                        if not ok:
+                            ctx.violation("U8-INDEX", b.path, "data-index", "the backing store of a surface/image is indexed with %s, which is not a Shape::offset(..) of the view" % ie[:160],
+                                          sites=["%s:%d" % (b.file, t["line"])])
             continue
         for bb, t in b.terms():
             if t["k"] == "assert" and t["msg"]["kind"] == "BoundsCheck":
